@@ -17,6 +17,7 @@ func init() {
 		Fn:    checkC05,
 		Explanation: "Decides, for every zapcore.Core implementation in the tree, the Check discipline of its class (leaf: registers itself only under its own Enabled(ent.Level); filter: returns the incoming entry when disabled and otherwise delegates with the same entry; tee: threads the checked entry through every branch; hook wrapper: registers only on evidence that the wrapped core grew the core list relative to the incoming entry), " +
 			"the legality of every cheap Enabled pre-check in the logging front ends (constant level below DPanic, or conjoined with lvl < DPanic, on the logger's live core), the reported level (every Level() is LevelOf of the wrapped enabler; the tee minimum is seeded with InvalidLevel; LevelOf scans the whole level range ascending), the increase-only validation loop, that CheckedEntry.Write/field sweetening only run under ce != nil, and that AtomicLevel's only state is one atomic accessed afresh on every Enabled. " +
+			"Also decided, by bounded concrete exploration: NewTee for 0..3 cores keeps every core it is given, in order, on every path (no construction-time filtering by what a core enables at that moment); zapgrpc's enabler fields hold the logger's live core also when handed down through constructor parameters. " +
 			"NOT decided: behaviour of user-supplied enablers/cores, histories of SetLevel, out-of-range gRPC verbosity.",
 		Assumptions: commonAssumptions,
 	}
